@@ -101,6 +101,26 @@ def check_output(part, outputs, raw, case, sig, conn=None):
             return False
         part.violation('monitor', f'{sig}: the server wrote bytes that are not well-formed IMAP ({bad[:80]!r}): {raw[:300]!r}', case, signature='malformed:' + sig)
         return False
+    # the values with a grammar of their own: envelope and body (RFC 3501 section 9)
+    try:
+        for resp in imapresp.parse(data):
+            f = imapresp.fetch_items(resp)
+            if not f:
+                continue
+            for name, v in f[1].items():
+                p = None
+                if name == b'ENVELOPE':
+                    p = imapresp.envelope_problem(v)
+                elif name in (b'BODYSTRUCTURE', b'BODY') and isinstance(v, list):
+                    p = imapresp.body_problem(v)
+                if p:
+                    part.stat('structure-problem')
+                    part.violation('monitor', f'{sig}: {name.decode()} does not follow its grammar: {p[:300]}', case, signature='structure:' + name.decode())
+                    return False
+                elif name in (b'ENVELOPE', b'BODYSTRUCTURE', b'BODY'):
+                    part.stat('structure-checked')
+    except (imapresp.Malformed, RecursionError):
+        pass
     return True
 
 
